@@ -314,15 +314,12 @@ func check(c Case, o *pbt.Obs) *pbt.Failure {
 			return
 		}
 		d := r.mon.DurableView()
-		switch m.Type {
-		case raftpb.MsgVoteResp:
-			if !m.Reject && (d.Term < m.Term || (d.Term == m.Term && d.Vote != m.To)) {
-				w.setFail(pbt.Failf("C05:vote-before-durable", "replica %d grants its vote to %d in term %d but its durable hard state is term %d vote %d", r.i, m.To, m.Term, d.Term, d.Vote))
+		if v := sim.AttestsOnlyDurable(d, m); v != "" {
+			key := "C05:vote-before-durable"
+			if m.Type == raftpb.MsgAppResp {
+				key = "C05:append-ack-before-durable"
 			}
-		case raftpb.MsgAppResp:
-			if !m.Reject && (d.Term < m.Term || d.LastIndex < m.Index) {
-				w.setFail(pbt.Failf("C05:append-ack-before-durable", "replica %d acknowledges entries up to %d in term %d but its durable log ends at %d (durable term %d)", r.i, m.Index, m.Term, d.LastIndex, d.Term))
-			}
+			w.setFail(pbt.Failf(key, "replica %d %s", r.i, v))
 		}
 	}
 	for _, r := range w.reps {
@@ -517,7 +514,7 @@ func check(c Case, o *pbt.Obs) *pbt.Failure {
 func TestRaftGlueSafety(t *testing.T) {
 	pbt.Run(t, pbt.Prop[Case]{
 		ID: "C05", Name: "TestRaftGlueSafety",
-		Rule: "rapid-generated schedules over 1-5 real RaftGroups (real ready loop, RaftTransport and Badger log stores; in-memory message shims): proposals at any replica, logical ticks through the loop hook, partitions/heals, per-link decision tapes (deliver/drop-with-error/drop-silently/duplicate/delay), crash of a replica at its k-th next durable write before or after performing it, restart over the same store (RestartNode), snapshot-now; invariants checked online: applied payload sequences of all incarnations are prefixes of one canonical sequence (snapshots included), a granted MsgVoteResp / accepted MsgAppResp leaves only after the term+vote / entries it attests are durable in the sender's log store, durable term/commit never go back, vote never changes within a term, committed entries are never overwritten, a restarted replica resumes at a term/vote/commit no older than durable, no log.Fatal without injected crash; finally all replicas are restarted, healed and must converge on equal sequences containing a probe (bounded logical time; non-convergence is counted inconclusive); non-trivial = a fault or crash plan was active and entries were applied afterwards; distinct = distinct case JSON",
+		Rule:    "rapid-generated schedules over 1-5 real RaftGroups (real ready loop, RaftTransport and Badger log stores; in-memory message shims): proposals at any replica, logical ticks through the loop hook, partitions/heals, per-link decision tapes (deliver/drop-with-error/drop-silently/duplicate/delay), crash of a replica at its k-th next durable write before or after performing it, restart over the same store (RestartNode), snapshot-now; invariants checked online: applied payload sequences of all incarnations are prefixes of one canonical sequence (snapshots included), a granted MsgVoteResp / accepted MsgAppResp leaves only after the term+vote / entries it attests are durable in the sender's log store, durable term/commit never go back, vote never changes within a term, committed entries are never overwritten, a restarted replica resumes at a term/vote/commit no older than durable, no log.Fatal without injected crash; finally all replicas are restarted, healed and must converge on equal sequences containing a probe (bounded logical time; non-convergence is counted inconclusive); non-trivial = a fault or crash plan was active and entries were applied afterwards; distinct = distinct case JSON",
 		Gen:     genCase,
 		Check:   check,
 		Journal: true,
